@@ -26,6 +26,9 @@ func Ev(site, detail string) {}
 // EvP records an event about the object identified by the pointer p without yielding.
 func EvP(site string, p any, detail string) {}
 
+// Itoa formats a small integer for an event detail ("" when disabled).
+func Itoa(i int) string { return "" }
+
 // Poll returns the order in which n ready-candidates are polled (nil: disabled).
 func Poll(n int) []int { return nil }
 
